@@ -95,6 +95,9 @@ def seqs(alphabet, depth):
 def generate(rng, tier):
     cases = []
     quick = tier == "quick"
+    rng_obj = __import__("random").Random(rng.random())      # own generator: the streams below keep their draws
+    for _ in range(600 if quick else 20000):
+        cases.append({"stream": "objprog", "input": gen_obj_program(rng_obj)})
     mut16 = [(c, k) for c in MUTATORS for k in POOL]
     # 0. several entries holding the same Field objects: all mutator sequences over both entries (shortest first)
     mkeys = POOL if quick else ["a", "A", "b"]
@@ -1303,7 +1306,140 @@ def impl_eq(case):
     return rec
 
 
+# ---------------------------------------------------------------- object-level programs against Model/EntryObj.v (op 25)
+OBJ_KEYS = ["a", "A", "b", "ab", "ID"]
+OBJ_VALS = ["x", "y", "", 3]
+
+
+def gen_obj_program(rng):
+    """Several entries over a store of Field objects (shared freely), a program of mapping calls and of caller writes into
+    Field objects; every choice is made here so that the child only executes it."""
+    n = rng.randint(0, 5)
+    objs = [[rng.choice(OBJ_KEYS), rng.choice(OBJ_VALS), rng.choice([None, 1, 2])] for _ in range(n)]
+    ents = []
+    for _ in range(rng.randint(1, 3)):
+        fl = [i for i in range(n) if rng.random() < 0.6]
+        rng.shuffle(fl)
+        ents.append([rng.choice(["article", "book"]), rng.choice(["k1", "k2"]), fl])
+    prog = []
+    for _ in range(rng.randint(1, 12)):
+        c = rng.randint(0, 9)
+        e, k = rng.randrange(len(ents)), rng.choice(OBJ_KEYS)
+        if c == 0:
+            prog.append(["new", e, k, rng.choice(OBJ_VALS), rng.choice([None, 5])])
+        elif c == 1:
+            prog.append(["setitem", e, k, rng.choice(OBJ_VALS)])
+        elif c in (2, 4):
+            prog.append(["pop" if c == 2 else "get", e, k, rng.choice([None, "dflt"])])
+        elif c == 3:
+            prog.append(["del", e, k])
+        elif c == 5:
+            prog.append(["in", e, k])
+        elif c == 6:
+            prog.append(["getitem", e, rng.choice(OBJ_KEYS + ["ENTRYTYPE"])])
+        elif c == 7:
+            prog.append(["setobj", e, rng.randrange(1000)])
+        elif c == 8:
+            prog.append(["oval", rng.randrange(1000), rng.choice(OBJ_VALS)])
+        else:
+            prog.append(["okey", rng.randrange(1000), k])
+    return {"objprog": {"objs": objs, "entries": ents, "prog": prog}}
+
+
+def impl_obj(case):
+    import enc
+    import implutil
+    from bibtexparser.model import Entry, Field
+    S = enc.enc_str
+    d = case["input"]["objprog"]
+    objs = [Field(k, v, ln) for k, v, ln in d["objs"]]
+    ids = {id(o): i + 1 for i, o in enumerate(objs)}
+    keep = list(objs)
+    ents = [Entry(t, k, [objs[i] for i in fl]) for t, k, fl in d["entries"]]
+    store = [[ids[id(o)], enc.enc_field(o)] for o in objs]
+    sx_e = [[S(e.entry_type), S(e.key), [ids[id(f)] for f in e.fields]] for e in ents]
+    nxt = [len(objs) + 1]
+
+    def reg(o):
+        if id(o) not in ids:
+            ids[id(o)] = nxt[0]
+            nxt[0] += 1
+            keep.append(o)
+
+    def res_of(r):
+        if r is None:
+            return [0]
+        return [2, enc.enc_value(r)] if isinstance(r, str) else [1, ids[id(r)], enc.enc_field(r)]
+    prog, expect = [], []
+
+    def run():
+        for st in d["prog"]:
+            res = [0]
+            op = st[0]
+            if op in ("setobj", "oval", "okey"):
+                if not keep:
+                    continue
+                o = keep[st[-2 if op != "setobj" else 2] % len(keep)] if op == "setobj" else keep[st[1] % len(keep)]
+            if op == "new":
+                f = Field(st[2], st[3], st[4])
+                sxf = enc.enc_field(f)
+                reg(f)
+                ents[st[1]].set_field(f)
+                prog.append([0, st[1], [0, sxf]])
+            elif op == "setitem":
+                ents[st[1]][st[2]] = st[3]
+                prog.append([0, st[1], [1, S(st[2]), enc.enc_value(st[3])]])
+                for f in ents[st[1]].fields:
+                    reg(f)
+            elif op in ("pop", "get"):
+                e = ents[st[1]]
+                r = (getattr(e, op)(st[2]) if st[3] is None else getattr(e, op)(st[2], st[3]))
+                prog.append([0, st[1], [2 if op == "pop" else 4, S(st[2]), [] if st[3] is None else [enc.enc_value(st[3])]]])
+                res = res_of(r)
+            elif op == "del":
+                del ents[st[1]][st[2]]
+                prog.append([0, st[1], [3, S(st[2])]])
+            elif op == "in":
+                res = [3, 1 if st[2] in ents[st[1]] else 0]
+                prog.append([0, st[1], [5, S(st[2])]])
+            elif op == "getitem":
+                try:
+                    res = [2, enc.enc_value(ents[st[1]][st[2]])]
+                except KeyError:
+                    res = [4, 3]
+                prog.append([0, st[1], [6, S(st[2])]])
+            elif op == "setobj":
+                ents[st[1]].set_field(o)
+                prog.append([0, st[1], [7, ids[id(o)]]])
+            elif op == "oval":
+                o.value = st[2]
+                prog.append([1, ids[id(o)], enc.enc_value(st[2])])
+            else:
+                o.key = st[2]
+                prog.append([2, ids[id(o)], S(st[2])])
+            views = [[[ids[id(f)] for f in x.fields], [enc.enc_field(f) for f in x.fields],
+                      [[S(kk), ids[id(f)]] for kk, f in x.fields_dict.items()],
+                      [[S(kk), enc.enc_value(v)] for kk, v in x.items()]] for x in ents]
+            objs_now = [[ids[id(o2)], enc.enc_field(o2)] for o2 in sorted(keep, key=lambda o2: ids[id(o2)])]
+            expect.append([res, views, objs_now])
+    g = implutil.guarded(run)
+    rec = {"key": json.dumps(d), "nontrivial": len(ents) > 1 or len(d["prog"]) > 2, "tags": ["objprog"],
+           "sx_in": [25, store, sx_e, prog]}
+    if g[0] == "exc":
+        rec["sx_out"] = implutil.r_exc(g[1])
+        rec["oracle"] = {"ok": False, "detail": "%s raised by a mapping call of an object-level program" % g[2]}
+        rec["summary"] = "raised " + g[2]
+        return rec
+    rec["sx_out"] = implutil.r_ok(expect)
+    # the property on these programs is C19_obj_world_refines / C19_obj_other_entries: the comparison with Model/EntryObj.v decides
+    rec["oracle"] = {"ok": True, "detail": ""}
+    rec["summary"] = "%d steps over %d entries" % (len(expect), len(ents))
+    return rec
+
+
 def impl(case):
+    if "objprog" in case["input"]:
+        return impl_obj(case)
     if "eq" in case["input"]:
         return impl_eq(case)
     if "multi" in case["input"]:
